@@ -392,6 +392,26 @@ theorem start_race_drain_completes (c : EarlyStep.Cfg) (hf : c.fixed = true)
   have hx := EarlyStep.undisturbed_terminal c s' hI' hf hu' hend
   exact ⟨hx, (hI'.drained hx).trans hfr.2.2.2⟩
 
+/-- **… under ANY fair continuation.** Once the marker has been emitted, every continuation `sched₂`
+of the schedule that gives the actor's own task at least `measure` steps — with the other threads'
+steps (more casts, drains, stops, kills) interleaved in any way — ends the actor's task; and if
+at that point still nothing has intervened, it ended "Drained" having handled every accepted
+message. (The fairness assumption is only "the actor's task is polled `measure` more times".) -/
+theorem start_race_drain_completes_fair (c : EarlyStep.Cfg) (progs : List (List EarlyStep.Req))
+    (sched₁ sched₂ : List EarlyStep.Tid)
+    (hm : (EarlyStep.run c (EarlyStep.init progs) sched₁).sh.markerSent = true)
+    (hfair : EarlyStep.measure (EarlyStep.run c (EarlyStep.init progs) sched₁).sh ≤ sched₂.count .start) :
+    (EarlyStep.run c (EarlyStep.init progs) (sched₁ ++ sched₂)).sh.pc.alive = false ∧
+    (c.fixed = true → EarlyStep.undisturbed c (EarlyStep.run c (EarlyStep.init progs) (sched₁ ++ sched₂)).sh = true →
+      (EarlyStep.run c (EarlyStep.init progs) (sched₁ ++ sched₂)).sh.pc = .exited .drained ∧
+      (EarlyStep.run c (EarlyStep.init progs) (sched₁ ++ sched₂)).sh.handled =
+        (EarlyStep.run c (EarlyStep.init progs) (sched₁ ++ sched₂)).sh.accepted) := by
+  have hI := EarlyStep.inv_reach c progs sched₁
+  have hend : (EarlyStep.run c (EarlyStep.init progs) (sched₁ ++ sched₂)).sh.pc.alive = false := by
+    rw [EarlyStep.run_append]
+    exact EarlyStep.sealed_run_ends c sched₂ _ hI (hI.sentClosed hm) hm hfair
+  exact ⟨hend, fun hf hu => start_race_only_drained_exit c hf progs (sched₁ ++ sched₂) hu hend⟩
+
 /-- Once a drain's first step has closed admission no send is accepted any more, whatever the
 start thread and the other threads do afterwards. -/
 theorem start_race_nothing_accepted_after_close (c : EarlyStep.Cfg) (progs : List (List EarlyStep.Req))
@@ -466,6 +486,7 @@ end C07
 #print axioms C07.start_race_never_already_started
 #print axioms C07.start_race_only_drained_exit
 #print axioms C07.start_race_drain_completes
+#print axioms C07.start_race_drain_completes_fair
 #print axioms C07.start_race_nothing_accepted_after_close
 #print axioms C07.unfixed_link_gate_drops_accepted_casts
 #print axioms C07.src_status_discriminants_start
